@@ -28,8 +28,11 @@ RunStep(r) ==
               \cup (IF r.kind = "complete" /\ r.ok /\ r.slot # k THEN {"C12:run used an unexpected slot"} ELSE {}))
      \* an invocation that was meant to complete but did not leaves the specification state where it was
      /\ st' = (IF r.kind = "complete" /\ ~r.ok THEN st ELSE s2)
+     \* (an invocation killed after its last effect has completed as far as the store goes, but what is observed next is
+     \* still "after a crash": C13)
      /\ crashed' = (IF r.kind = "complete" /\ ~r.ok THEN crashed
-                    ELSE IF n = Len(Effs) THEN FALSE ELSE (r.kind = "crash" \/ crashed))
+                    ELSE IF r.kind = "crash" THEN TRUE
+                    ELSE IF n = Len(Effs) THEN FALSE ELSE crashed)
      /\ runs' = (IF n = Len(Effs) /\ ~(r.kind = "complete" /\ ~r.ok) THEN (r.r :> k) @@ runs ELSE runs)
      /\ UNCHANGED <<N, beh>>
 
